@@ -462,7 +462,7 @@ def side_conditions_rule(ctx):
         g = pe[0]
         probs = []
         n_arms = 0
-        for m in sir.walk(g.body):
+        for m in sir.walk_reach(ctx.tc, g, 2):
             if m.get("k") != "match":
                 continue
             for a in m["arms"]:
@@ -472,6 +472,24 @@ def side_conditions_rule(ctx):
                     continue
                 n_arms += 1
                 pats = a["pat"]["cases"] if a["pat"].get("k") == "p_or" else [a["pat"]]
+                g_ = a.get("guard")
+                if g_ is not None and all(p_.get("k") in ("p_ident", "p_ts") for p_ in pats):
+                    # `ch if ch.is_ascii_alphabetic()` / `Some(ch) if is_digit(ch)` with ASCII-only predicates at every call site
+                    def ascii_pred(e):
+                        e = sir.strip_ref(e)
+                        return e.get("k") == "mcall" and e["m"] in ("is_ascii_hexdigit", "is_ascii_digit", "is_ascii_alphabetic", "is_ascii_alphanumeric") and not e["args"]
+                    okg = ascii_pred(g_)
+                    if not okg and g_.get("k") == "call" and g_["f"].get("k") == "path" and len(g_["f"]["segs"]) == 1:
+                        # a predicate parameter: every closure passed for it must be an ASCII predicate
+                        owner = [h for h in ctx.tc.fns if h.body and any(x is a for x in sir.walk(h.body))]
+                        if owner:
+                            pn = owner[0].param_names()
+                            if g_["f"]["segs"][0] in pn:
+                                pi = pn.index(g_["f"]["segs"][0])
+                                sites = [c for h in ctx.tc.fns if h.body for c in sir.walk(h.body) if c.get("k") == "call" and sir.call_name(c) == owner[0].name and len(c["args"]) == len(pn)]
+                                okg = bool(sites) and all(c["args"][pi].get("k") == "closure" and ascii_pred(c["args"][pi]["body"]) for c in sites)
+                    if okg:
+                        continue
                 for pt_ in pats:
                     okp = False
                     if pt_.get("k") == "p_range" and pt_.get("lo") and pt_.get("hi"):
@@ -481,7 +499,7 @@ def side_conditions_rule(ctx):
                         okp = isinstance(v, str) and len(v) == 1 and ord(v) < 128
                     if not okp or a.get("guard") is not None:
                         probs.append("the scanner continues on `%s`%s, which is not a set of ASCII characters" % (sir.pat_str(pt_), " if <guard>" if a.get("guard") is not None else ""))
-        obs.append(ob("C01.panic/side/entity-ascii", n_arms >= 3 and not probs, ctx.where(g), "; ".join(sorted(set(probs))) if probs else "%d continue-arms of the entity scanner accept ASCII letters/digits only" % n_arms,
+        obs.append(ob("C01.panic/side/entity-ascii", n_arms >= 1 and not probs, ctx.where(g), "; ".join(sorted(set(probs))) if probs else "%d continue-arms of the entity scanner accept ASCII letters/digits only" % n_arms,
                       witness=None if not probs else "`&a\u00e9;` reaches a byte slice inside a character in entities::decode"))
     # parse_at_rule: the `_ => unreachable!()` dispatch on the import condition name is guarded by a test of the same names
     pa = [g for g in ctx.sc.fns if g.name == "parse_at_rule" and g.body]
